@@ -153,6 +153,7 @@ func C20(c *Ctx) {
 	r.Rule("C20-b", "for each generated parser: gofmt(static tail from `var ( // errNoRule`) == gofmt(variant for the recipe's flags [+ rangeTable iff referenced]); flags from the Makefile and properties of the literal (stateCodeExpr ⇒ GlobalState, leader: ⇒ LeftRecursion) do not contradict")
 	r.Rule("C20-c", "set of *.peg under test/, examples/, grammar/ == set of grammars with a Makefile recipe; every recipe target exists and carries the generated-code header; every file with the header has a recipe")
 	r.Rule("C20-e", "sibling agreement of the two front-ends on literal decoding: the value passed to ast.NewLitMatcher is, in bootstrap/parser.go and in the generated pigeon.go alike, the result of strconv.Unquote on the raw token text (helpers are resolved one level); class, any-matcher, identifier and code-block values are the raw token text in both")
+	r.Rule("C20-g", "code blocks are kept verbatim by both front-ends: ast.NewCodeBlock receives string(c.text) in the generated front-end and the token text in the bootstrap parser, and the bootstrap scanner's scanCode appends every rune it consumes (each s.read() is followed by s.tok.WriteRune(s.cur) before the next one; runes are consumed only through the primitive read)")
 	r.Rule("C20-f", "sibling agreement of the two front-end grammars: every rule defined both in grammar/bootstrap.peg and in grammar/pigeon.peg (compared through their generated literals, positions and actions aside) has the same expression, except the listed rules where pigeon.peg extends the bootstrap subset")
 	r.Rule("C20-d", "for artifacts generated without -optimize-grammar: every position{line,col,offset} in the grammar literal satisfies line = 1 + newlines before offset, col = 1 + runes since the last newline; rule names, rule references, character-class texts and `.` occur at their offsets in the .peg")
 
@@ -180,6 +181,7 @@ func C20(c *Ctx) {
 	// ---- e: sibling agreement on literal decoding
 	c20Decoders(c)
 	flagMapping(c, c.G(), "C20-e")
+	c20CodeVerbatim(c)
 	// ---- f: the two front-end grammars agree on the rules they share
 	siblingGrammars(c, "C20-f")
 	// ---- c: coverage
@@ -620,4 +622,127 @@ func c20Decoders(c *Ctx) {
 	ok := nb >= 1 && ng >= 1 && bs == "strconv.Unquote" && gs == "strconv.Unquote"
 	r.Check(ok, "C20-e", "A.front-ends:literal-decoding-agrees", "", "bootstrap/parser.go, pigeon.go", "both front-ends decode literal tokens with strconv.Unquote only",
 		fmt.Sprintf("bootstrap front-end decodes literal values with {%s} (%d sites), generated front-end with {%s} (%d sites): for some literal spellings the two front-ends build different LitMatcher values (e.g. '\\xe9' is the byte 0xE9 for strconv.Unquote but U+00E9 for UnquoteChar)", bs, nb, gs, ng))
+}
+
+// c20CodeVerbatim (C20-g).
+func c20CodeVerbatim(c *Ctx) {
+	r := c.R
+	g := c.G()
+	if g == nil {
+		return
+	}
+	// (1)/(2) constructor arguments
+	for _, side := range []struct{ pkg, file, want, label string }{
+		{"", "/pigeon.go", "string(c.text)", "generated front-end"},
+		{"bootstrap", "/bootstrap/parser.go", "p.tok.lit", "bootstrap front-end"},
+	} {
+		pk := g.Pkg(side.pkg)
+		if pk == nil {
+			r.Fatal("package %q not loaded", side.pkg)
+			continue
+		}
+		n := 0
+		var bad []string
+		for i, f := range pk.Syntax {
+			if !strings.HasSuffix(pk.CompiledGoFiles[i], side.file) {
+				continue
+			}
+			ast.Inspect(f, func(nd ast.Node) bool {
+				ce, ok := nd.(*ast.CallExpr)
+				if !ok || callSel(ce) != "NewCodeBlock" || len(ce.Args) != 2 {
+					return true
+				}
+				n++
+				if a := nospace(ce.Args[1]); a != side.want {
+					bad = append(bad, g.Where(ce.Pos())+": code block text is "+a+", expected "+side.want)
+				}
+				return true
+			})
+		}
+		r.Check(len(bad) == 0 && n > 0, "C20-g", "A."+side.label+":code-block-text-is-the-token-text", "", side.file[1:], fmt.Sprintf("%d constructor calls, all with %s", n, side.want), fmt.Sprintf("%d calls; %s", n, strings.Join(bad, "; ")))
+	}
+	// (3) the scanner
+	bp := g.Pkg("bootstrap")
+	if bp == nil {
+		return
+	}
+	fd := load.FuncDecl(bp, "Scanner", "scanCode")
+	if fd == nil || fd.Body == nil {
+		r.Fatal("anchor bootstrap.Scanner.scanCode not found")
+		return
+	}
+	s := recvName(fd)
+	// methods of Scanner that (transitively) consume input
+	consumes := map[string]bool{"read": true}
+	for changed := true; changed; {
+		changed = false
+		for _, d := range load.AllFuncDecls(bp) {
+			if load.RecvName(d) != "Scanner" || d.Body == nil || consumes[d.Name.Name] {
+				continue
+			}
+			for _, ce := range callsIn(d.Body) {
+				if sel, ok := ce.Fun.(*ast.SelectorExpr); ok && consumes[sel.Sel.Name] {
+					if id, ok := sel.X.(*ast.Ident); ok && id.Name == recvName(d) {
+						consumes[d.Name.Name] = true
+						changed = true
+					}
+				}
+			}
+		}
+	}
+	var bad []string
+	paths := enumPaths(fd.Body)
+	for _, p := range paths {
+		pendingRead := false
+		for _, e := range p {
+			if e.Kind == "return" {
+				pendingRead = false
+				continue
+			}
+			ce, ok := e.Node.(*ast.CallExpr)
+			if e.Kind != "call" || !ok {
+				continue
+			}
+			switch {
+			case e.Text == s+".read()":
+				if pendingRead {
+					bad = append(bad, g.Where(ce.Pos())+": a rune is consumed while the previous one was not appended to the token")
+				}
+				pendingRead = true
+			case e.Text == s+".tok.WriteRune("+s+".cur)":
+				pendingRead = false
+			default:
+				if sel, ok := ce.Fun.(*ast.SelectorExpr); ok && consumes[sel.Sel.Name] && nospace(sel.X) == s {
+					bad = append(bad, g.Where(ce.Pos())+": input is consumed through "+sel.Sel.Name+"(), which can advance over runes that are never appended to the token (the generated front-end keeps string(c.text) verbatim)")
+				}
+			}
+		}
+	}
+	// the primitive itself: stores the rune ReadRune returned, unconditionally
+	okRead := false
+	if rd := load.FuncDecl(bp, "Scanner", "read"); rd != nil && rd.Body != nil {
+		rv := ""
+		ast.Inspect(rd.Body, func(nd ast.Node) bool {
+			if as, ok := nd.(*ast.AssignStmt); ok && len(as.Rhs) == 1 && strings.HasSuffix(nospace(as.Rhs[0]), ".ReadRune()") && len(as.Lhs) == 3 {
+				rv = nospace(as.Lhs[0])
+			}
+			if as, ok := nd.(*ast.AssignStmt); ok && len(as.Lhs) == 1 && nospace(as.Lhs[0]) == recvName(rd)+".cur" && rv != "" && nospace(as.Rhs[0]) == rv && len(guardsOf(rd.Body, as.Pos())) == 0 {
+				okRead = true
+			}
+			return true
+		})
+		nRR := 0
+		for _, ce := range callsIn(rd.Body) {
+			if callSel(ce) == "ReadRune" {
+				nRR++
+			}
+		}
+		if nRR != 1 {
+			okRead = false
+		}
+	}
+	if !okRead {
+		bad = append(bad, "Scanner.read does not store exactly the one rune it reads into cur unconditionally")
+	}
+	r.Check(len(bad) == 0 && len(paths) > 0, "C20-g", "G.bootstrap.Scanner.scanCode:appends-every-rune-it-consumes", "", g.Where(fd.Pos()), fmt.Sprintf("%d paths; every read() is followed by WriteRune(cur)", len(paths)), strings.Join(uniq(bad), "; "))
 }
